@@ -43,6 +43,13 @@ def T(x):
     """numpy result -> SymTensor (symbolic) or torch tensor (concrete)"""
     if isinstance(x, S):
         return SymTensor(np.array(x, dtype=object).reshape(()))
+    if isinstance(x, B):
+        if isinstance(x.term, bool):
+            return torch.tensor(x.term)
+        t = SymTensor.__new__(SymTensor)
+        t.cplx = None
+        t.a = np.array(x, dtype=object).reshape(())
+        return t
     if isinstance(x, np.ndarray):
         if x.dtype == object:
             return SymTensor(x)
@@ -108,6 +115,8 @@ class SymTensor:
         a = np.asarray(a)
         if a.dtype != object:
             a = lift(a)
+        elif a.size and isinstance(a.reshape(-1)[0], B):
+            pass                                   # a tensor of symbolic conditions
         elif not isinstance(a, SymArray) and a.ndim:
             a = _elem(to_S)(a)
         elif a.ndim == 0 and not isinstance(a.item(), S):
@@ -850,6 +859,14 @@ def _grid_sample(inp, grid, mode="bilinear", padding_mode="zeros", align_corners
                         if w != 0 and 0 <= yy < H and 0 <= xx < W:
                             out[n, :, i, j] = out[n, :, i, j] + a[n, :, yy, xx] * w
     return T(out)
+
+
+@handler("long", "int")
+def _long(x, *a, **k):
+    arr = _obj(A(x))
+    if all(to_S(v).is_const for v in arr.reshape(-1)):
+        return torch.tensor([int(to_S(v).re) for v in arr.reshape(-1)], dtype=torch.long).reshape(arr.shape)
+    return x                                      # integer-valued symbolic terms (ite of ints) stay symbolic
 
 
 @handler("argsort")
